@@ -72,6 +72,8 @@ type c19Input struct {
 	MaxDelayMs int        `json:"maxDelay"` // native mode: BlockBroadcaster maxDelay
 	Delays     [][]int    `json:"delays"`   // proxy mode: [subscriber][block index] ms
 	Reports    [][]JCR    `json:"reports"`
+	Raw        []string   `json:"raw"`              // parallel to Reports: non-empty = the report's bytes as they are (undecodable); Reports[i] is then empty
+	Stress     *c19Stress `json:"stress,omitempty"` // an un-timed Transmit ∥ Load case instead of a chain run
 	Txs        []c19Tx    `json:"txs"`
 	Queries    []int64    `json:"queries"` // µs; proxy mode only
 	Attach     []int64    `json:"attach"`  // per subscriber, µs: when it subscribes (0: before Start); proxy mode only
@@ -121,10 +123,11 @@ type c19JRec struct {
 	Blk   *string `json:"blk"`
 }
 type c19Impl struct {
-	Dict     []c19JBlock `json:"dict"`   // distinct blocks seen anywhere
-	Chain    []int       `json:"chain"`  // as broadcast (undelayed observer), indices into dict
-	Times    []int64     `json:"times"`  // virtual µs after Start at which the observer got each block
-	Hashes   []string    `json:"hashes"` // hash ids used in hists
+	Dict     []c19JBlock `json:"dict"`       // distinct blocks seen anywhere
+	Chain    []int       `json:"chain"`      // as broadcast (undelayed observer), canonicalised THE MOMENT they were broadcast; indices into dict
+	After    []int       `json:"chainAfter"` // the same block values canonicalised again at the end of the run
+	Times    []int64     `json:"times"`      // virtual µs after Start at which the observer got each block
+	Hashes   []string    `json:"hashes"`     // hash ids used in hists
 	Subs     []c19JSub   `json:"subs"`
 	Accepted [][]bool    `json:"accepted"`
 	Results  []c19JRec   `json:"results"`
@@ -278,6 +281,14 @@ func c19Normalise(in *c19Input) {
 		}
 	}
 	in.Stalls = stalls
+	raw := make([]string, len(in.Reports))
+	for i := range raw {
+		if i < len(in.Raw) && in.Raw[i] != "" {
+			raw[i] = in.Raw[i]
+			in.Reports[i] = []JCR{}
+		}
+	}
+	in.Raw = raw
 	if in.Reports == nil {
 		in.Reports = [][]JCR{}
 	}
@@ -422,6 +433,9 @@ func c19Run(t *testing.T, in c19Input) c19Impl {
 	repIdx := map[string]int{}
 	for i, r := range in.Reports {
 		repBytes[i] = c19ReportBytes(r)
+		if i < len(in.Raw) && in.Raw[i] != "" {
+			repBytes[i] = []byte(in.Raw[i]) // a report no node can decode
+		}
 		if _, dup := repIdx[string(repBytes[i])]; dup {
 			t.Fatalf("C19 input: reports %d and %d have identical bytes", repIdx[string(repBytes[i])], i)
 		}
@@ -432,6 +446,33 @@ func c19Run(t *testing.T, in c19Input) c19Impl {
 			return i
 		}
 		return c19UnknownRep
+	}
+
+	// canon renders a block value as it is NOW (number, hash, transmits, digest of everything else)
+	canon := func(b chain.Block) c19JBlock {
+		jb := c19JBlock{N: "nil", H: hx(b.Hash[:]), Tx: []c19JTx{}}
+		if b.Number != nil {
+			jb.N = b.Number.String()
+		}
+		other := []string{}
+		for _, tx := range b.Transactions {
+			switch v := tx.(type) {
+			case chain.PerformUpkeepTransaction:
+				for _, e := range v.Transmits {
+					jb.Tx = append(jb.Tx, c19JTx{From: e.SendingAddress, Rep: repOf(e.Report), Round: e.Round})
+					bn := "nil"
+					if e.BlockNumber != nil {
+						bn = e.BlockNumber.String()
+					}
+					other = append(other, fmt.Sprintf("transmit %s %x %x %d %s %x", e.SendingAddress, e.Report, e.Hash, e.Round, bn, e.BlockHash))
+				}
+				other = append(other, "end-perform")
+			default:
+				other = append(other, fmt.Sprintf("%T %v", tx, tx))
+			}
+		}
+		jb.C = c19Digest(strings.Join(other, "\n"))
+		return jb
 	}
 
 	tl, err := loader.NewOCR3TransmitLoader(config.SimulationPlan{}, nil, quietLogger)
@@ -451,6 +492,7 @@ func c19Run(t *testing.T, in c19Input) c19Impl {
 	var (
 		srcMu    sync.Mutex
 		srcChain []chain.Block
+		srcSnap  []c19JBlock // each block rendered the moment it was broadcast: what was mined
 		srcTimes []int64
 		t0       time.Time // set just before Start
 	)
@@ -461,6 +503,7 @@ func c19Run(t *testing.T, in c19Input) c19Impl {
 		for b := range srcCh {
 			srcMu.Lock()
 			srcChain = append(srcChain, b)
+			srcSnap = append(srcSnap, canon(b))
 			srcTimes = append(srcTimes, time.Since(t0).Microseconds())
 			srcMu.Unlock()
 		}
@@ -736,29 +779,7 @@ func c19Run(t *testing.T, in c19Input) c19Impl {
 		impl.Results = []c19JRec{}
 	}
 	dictIdx := map[string]int{}
-	blockIdx := func(b chain.Block) int {
-		jb := c19JBlock{N: "nil", H: hx(b.Hash[:]), Tx: []c19JTx{}}
-		if b.Number != nil {
-			jb.N = b.Number.String()
-		}
-		other := []string{}
-		for _, tx := range b.Transactions {
-			switch v := tx.(type) {
-			case chain.PerformUpkeepTransaction:
-				for _, e := range v.Transmits {
-					jb.Tx = append(jb.Tx, c19JTx{From: e.SendingAddress, Rep: repOf(e.Report), Round: e.Round})
-					bn := "nil"
-					if e.BlockNumber != nil {
-						bn = e.BlockNumber.String()
-					}
-					other = append(other, fmt.Sprintf("transmit %s %x %x %d %s %x", e.SendingAddress, e.Report, e.Hash, e.Round, bn, e.BlockHash))
-				}
-				other = append(other, "end-perform")
-			default:
-				other = append(other, fmt.Sprintf("%T %v", tx, tx))
-			}
-		}
-		jb.C = c19Digest(strings.Join(other, "\n"))
+	intern := func(jb c19JBlock) int {
 		key := jb.N + "|" + jb.H + "|" + jb.C
 		if i, ok := dictIdx[key]; ok {
 			return i
@@ -767,9 +788,14 @@ func c19Run(t *testing.T, in c19Input) c19Impl {
 		impl.Dict = append(impl.Dict, jb)
 		return len(impl.Dict) - 1
 	}
+	blockIdx := func(b chain.Block) int { return intern(canon(b)) }
 	impl.Chain = []int{}
-	for _, b := range srcChain {
-		impl.Chain = append(impl.Chain, blockIdx(b))
+	for _, jb := range srcSnap {
+		impl.Chain = append(impl.Chain, intern(jb))
+	}
+	impl.After = []int{}
+	for _, b := range srcChain { // the same (shared) block values, as they are now
+		impl.After = append(impl.After, blockIdx(b))
 	}
 	impl.Times = append([]int64{}, srcTimes...)
 	hashIdx := map[string]int64{}
@@ -821,6 +847,13 @@ func c19Run(t *testing.T, in c19Input) c19Impl {
 // bubble function returns, so a goroutine leak (reported by synctest as a
 // panic when the bubble ends) cannot lose it.
 func c19Bubble(t *testing.T, em *Emitter, src string, in c19Input) {
+	if in.Stress != nil { // real goroutines, no clock
+		if in.Stress.Nodes < 1 || in.Stress.Rounds < 1 || len(in.Reports) == 0 {
+			t.Fatalf("C19 stress input needs nodes, rounds and a report")
+		}
+		em.Emit(src, in, c19StressRun(t, in))
+		return
+	}
 	c19Normalise(&in)
 	var impl *c19Impl
 	func() {
@@ -849,6 +882,141 @@ func c19Bubble(t *testing.T, em *Emitter, src string, in c19Input) {
 		t.Logf("C19: %s", impl.Leak)
 	}
 	em.Emit(src, in, impl)
+}
+
+// ---------------------------------------------------------------- un-timed Transmit ∥ Load
+
+// c19Stress: Nodes goroutines each submit, round after round, the report of
+// rounds 0 … Rounds-1 (report Reports[round % len(Reports)]) through their
+// OCR3Transmitter while another goroutine keeps building blocks with the
+// loader's Load — the two public entry points the simulator runs concurrently
+// (nodes vs. block broadcaster), here without any clock so that the calls
+// really interleave.  When every submitter has returned, two more blocks are
+// built.  Every accepted (nil) submission must then be on chain exactly once.
+type c19Stress struct {
+	Nodes  int `json:"nodes"`
+	Rounds int `json:"rounds"`
+	Yield  int `json:"yield"` // the block builder yields the processor every Yield blocks (0: never)
+}
+
+type c19JStressBlock struct {
+	N  string   `json:"n"`
+	Tx []c19JTx `json:"tx"`
+}
+type c19StressImpl struct {
+	Accepted [][]bool          `json:"accepted"` // [round][node]
+	Blocks   []c19JStressBlock `json:"blocks"`   // the blocks that got a perform transaction, in order
+	Results  []c19JRec         `json:"results"`
+	Loads    int               `json:"loads"` // blocks built in all
+}
+
+func c19StressRun(t *testing.T, in c19Input) c19StressImpl {
+	st := *in.Stress
+	repBytes := make([][]byte, len(in.Reports))
+	repIdx := map[string]int{}
+	for i, r := range in.Reports {
+		repBytes[i] = c19ReportBytes(r)
+		repIdx[string(repBytes[i])] = i
+	}
+	repOf := func(b []byte) int {
+		if i, ok := repIdx[string(b)]; ok {
+			return i
+		}
+		return c19UnknownRep
+	}
+	tl, err := loader.NewOCR3TransmitLoader(config.SimulationPlan{}, nil, quietLogger)
+	if err != nil {
+		t.Fatalf("NewOCR3TransmitLoader: %v", err)
+	}
+	impl := c19StressImpl{Accepted: make([][]bool, st.Rounds), Blocks: []c19JStressBlock{}}
+	for r := range impl.Accepted {
+		impl.Accepted[r] = make([]bool, st.Nodes)
+	}
+	build := func(n int) {
+		blk := &chain.Block{Number: big.NewInt(int64(n))}
+		tl.Load(blk)
+		impl.Loads++
+		for _, tx := range blk.Transactions {
+			if v, ok := tx.(chain.PerformUpkeepTransaction); ok {
+				jb := c19JStressBlock{N: blk.Number.String(), Tx: []c19JTx{}}
+				for _, e := range v.Transmits {
+					jb.Tx = append(jb.Tx, c19JTx{From: e.SendingAddress, Rep: repOf(e.Report), Round: e.Round})
+				}
+				impl.Blocks = append(impl.Blocks, jb)
+			}
+		}
+	}
+	var (
+		submitters sync.WaitGroup
+		done       = make(chan struct{})
+		built      = make(chan struct{})
+	)
+	go func() { // the block broadcaster's side
+		defer close(built)
+		n := 0
+		for {
+			select {
+			case <-done:
+				build(n) // every submitter has returned: two more blocks take whatever is pending
+				build(n + 1)
+				return
+			default:
+			}
+			build(n)
+			n++
+			if st.Yield > 0 && n%st.Yield == 0 {
+				runtime.Gosched()
+			}
+		}
+	}()
+	for k := 0; k < st.Nodes; k++ {
+		tr := ocr.NewOCR3Transmitter(fmt.Sprintf("node-%d", k), tl)
+		submitters.Add(1)
+		go func() {
+			defer submitters.Done()
+			for r := 0; r < st.Rounds; r++ {
+				err := tr.Transmit(context.Background(), ocr2plustypes.ConfigDigest{}, uint64(r),
+					ocr3types.ReportWithInfo[plugin.AutomationReportInfo]{Report: repBytes[r%len(repBytes)]}, nil)
+				impl.Accepted[r][k] = err == nil
+			}
+		}()
+	}
+	submitters.Wait()
+	close(done)
+	<-built
+	for _, r := range tl.Results() {
+		j := c19JRec{From: r.SendingAddress, Rep: repOf(r.Report), Round: r.Round}
+		if r.BlockNumber != nil {
+			s := r.BlockNumber.String()
+			j.Blk = &s
+		}
+		impl.Results = append(impl.Results, j)
+	}
+	sort.Slice(impl.Results, func(i, j int) bool {
+		a, b := impl.Results[i], impl.Results[j]
+		if a.Round != b.Round {
+			return a.Round < b.Round
+		}
+		return a.From < b.From
+	})
+	if impl.Results == nil {
+		impl.Results = []c19JRec{}
+	}
+	return impl
+}
+
+func c19StressGen(r *Rng, em *Emitter) c19Input {
+	in := c19Input{Genesis: "0", Count: 1, CadenceMs: 1, Subs: 1,
+		Stress: &c19Stress{Nodes: r.Range(2, 8), Rounds: r.Range(100, 400), Yield: []int{0, 1, 7, 64}[r.Intn(4)]}}
+	for n := r.Range(1, 3); n > 0; n-- { // decoding the pending reports is the slow part of Load
+		rep := []JCR{}
+		for q := r.Range(1, 8); q > 0; q-- {
+			rep = append(rep, toJCR(genResult(r, genUpkeepID(r, r.Bool()), uint64(r.Range(10, 1000)))))
+		}
+		in.Reports = append(in.Reports, rep)
+	}
+	em.Hit(fmt.Sprintf("stress-nodes=%d", in.Stress.Nodes))
+	return in
 }
 
 // ---------------------------------------------------------------- generator
@@ -990,6 +1158,25 @@ func c19Gen(r *Rng, em *Emitter) c19Input {
 		}
 		in.Reports = append(in.Reports, rep)
 	}
+	// some reports are bytes no node can decode (the loader accepts anything): they are mined like
+	// the others, produce no event, and must not disturb the transmits around them
+	in.Raw = make([]string, nrep)
+	bad := []int{}
+	for i := 0; i < nrep; i++ {
+		if r.Chance(22) {
+			if r.Bool() {
+				in.Raw[i] = fmt.Sprintf("message-%d-%x", i, r.U64())
+			} else {
+				b := c19ReportBytes([]JCR{toJCR(genResult(r, genUpkeepID(r, r.Bool()), uint64(r.Range(10, 1000))))})
+				in.Raw[i] = string(b[:len(b)/2]) // truncated JSON
+			}
+			in.Reports[i] = []JCR{}
+			bad = append(bad, i)
+		}
+	}
+	if len(bad) > 0 {
+		em.Hit("undecodable-report")
+	}
 	if nrep > 0 {
 		span := int64(in.Count+1) * int64(in.CadenceMs) * 1000
 		ntx := r.Range(0, 8)
@@ -1043,6 +1230,26 @@ func c19Gen(r *Rng, em *Emitter) c19Input {
 				em.Hit(fmt.Sprintf("straggler-lag=%d", bucket(lag)))
 			}
 			em.Hit("round-progression")
+		}
+		if in.Count >= 2 && r.Chance(45) {
+			// several different transmits mined into ONE block, an undecodable one at any position
+			for nb := r.Range(1, 3); nb > 0; nb-- {
+				bi := r.Range(1, in.Count-1)
+				lo := int64(bi-1) * int64(in.CadenceMs) * 1000
+				k := r.Range(2, 4)
+				pos := r.Intn(k)
+				for j := 0; j < k; j++ {
+					x := c19Tx{At: lo + int64(j+1)*int64(in.CadenceMs)*1000/int64(k+2), Rep: r.Intn(nrep), Round: uint64(1000 + 10*bi + j)}
+					if j == pos && len(bad) > 0 {
+						x.Rep = bad[r.Intn(len(bad))]
+					}
+					for n := r.Range(1, 3); n > 0; n-- {
+						x.Nodes = append(x.Nodes, r.Intn(8))
+					}
+					in.Txs = append(in.Txs, x)
+				}
+				em.Hit(fmt.Sprintf("burst-in-one-block=%d", k))
+			}
 		}
 		if !in.Native {
 			for n := r.Range(0, 4); n > 0; n-- {
@@ -1153,6 +1360,17 @@ func c19Edge() []c19Input {
 		c19Tx{At: 395237, Rep: 1, Round: 40, Nodes: []int{7}}, c19Tx{At: 395337, Rep: 1, Round: 24, Nodes: []int{7}},
 		c19Tx{At: 395437, Rep: 0, Round: 23, Nodes: []int{7}}, c19Tx{At: 395537, Rep: 0, Round: 1, Nodes: []int{7, 6}})
 	out = append(out, lateIn)
+	// an undecodable report first / in the middle / last among three transmits of one block, read by
+	// three nodes at different times (the block value is shared by all of them)
+	for pos := 0; pos < 3; pos++ {
+		e := c19Input{Genesis: "7", Count: 6, CadenceMs: 100, Subs: 3, Delays: [][]int{make([]int, 6), {40, 40, 40, 40, 40, 40}, {250, 250, 250, 250, 250, 250}},
+			Reports: [][]JCR{rep(1), rep(2), {}}, Raw: []string{"", "", "message1"}, Queries: []int64{260137, 480137}}
+		order := [][]int{{2, 0, 1}, {0, 2, 1}, {0, 1, 2}}[pos]
+		for j, rp := range order {
+			e.Txs = append(e.Txs, c19Tx{At: int64(110137 + 20000*j), Rep: rp, Round: uint64(5 + j), Nodes: []int{j, j + 1}})
+		}
+		out = append(out, e)
+	}
 	for i := range out {
 		c19Normalise(&out[i])
 	}
@@ -1180,5 +1398,9 @@ func TestC19(t *testing.T) {
 	n := tierN(300, 3000)
 	for i := 0; i < n; i++ {
 		c19Bubble(t, em, "gen", c19Gen(r, em))
+	}
+	rs := NewRng(seed() + 7777)
+	for i := tierN(12, 200); i > 0; i-- {
+		c19Bubble(t, em, "stress", c19StressGen(rs, em))
 	}
 }
